@@ -187,6 +187,18 @@ CHECKS['C20'] = dict(
     technique='Coq proof of non-interference for the slot machine over all interleavings (induction on the schedule); facts from isinstance / ast scan; vm_compute correspondence on traced slot '
               'programs under identical interleavings; deterministic settrace scheduler on the real code, guided by the model counter-example, for replays')
 
+CHECKS['C12'] = dict(
+    text='Machine-checked, for what is logic in !eval: C12_order (for ANY symbols, definitions, config entries and builtins a name resolves to the code\'s own definition, then the context '
+         'symbol, then the top-level config entry, then the builtin), C12_split_spec (every code text without ";": all but the last line executed, the last evaluated) with C12_split_refuted '
+         '(known finding D11c), C12_history_single_line / C12_history_first_use (single-line programs, f-strings and first evaluations see only the current build, for every cache state) '
+         'with C12_history_refuted (known finding D11b). The models are tied to GlobalsWrapper (exhaustive), to the split statements taken from the source by an ast translator, and to real '
+         'build sequences run in one process. Partial by nature: CPython\'s compiler / interpreter and the bytecode rewriter cannot be modelled here; "computes what Python computes" for every '
+         'program of the grammar, f-string equality, EvalError-with-cause and no-crash are decided by the differential oracle (each program in a subprocess against native exec / eval), '
+         'with the rewriter\'s remaining limits as known finding D11a (precise signature computed from the natively compiled code).',
+    design='4 (C12), 6 (D11)',
+    technique='Coq proofs about name resolution, the code split and the module-cache history machine; vm_compute correspondence (exhaustive lookup patterns, ast-extracted split, traced build '
+              'histories); differential execution of grammar-generated programs and f-strings against native exec/eval in crash-isolated subprocesses for replays')
+
 NOT_APPLICABLE = {}
 
 
